@@ -9,6 +9,7 @@ import (
 	"math/rand"
 	"net/http"
 	"net/http/httptest"
+	"runtime"
 	"sort"
 	"strings"
 	"sync"
@@ -815,7 +816,10 @@ func (w *stallWriter) Write(b []byte) (int, error) {
 // c14ConcurrentJSON (direct oracle): the attribute database served to one controller is well-formed and complete also
 // when other controllers' requests are answered while its answer is still being written piece by piece.
 func c14ConcurrentJSON(c *Ctx) {
-	for i := 0; i < c.Pick(6, 40); i++ {
+	// one processor: goroutines that run while the stalled one is parked share its processor-local caches (sync.Pool
+	// private slots etc.), which makes interference between requests reproducible instead of a matter of luck
+	defer runtime.GOMAXPROCS(runtime.GOMAXPROCS(1))
+	for i := 0; i < c.Pick(8, 40); i++ {
 		id := c.CaseID("concurrent-json", i)
 		if c.Skip(id) {
 			continue
